@@ -22,7 +22,9 @@ def validators(prog):
     m = prog.by_short.get("common")
     if m is None:
         raise AnalysisError("module conda_content_trust/common.py not found (vanished anchor)")
-    return sorted(fi.qualname for n, fi in m.funcs.items() if n.startswith(("is_", "checkformat_")))
+    # (including validators whose bodies live in a private module that common re-exports: they are
+    # known as common.<name>, see Program._canonicalise_reexports)
+    return sorted(q for q, fi in prog.funcs.items() if q.startswith("common.") and q.count(".") == 1 and q.split(".")[1].startswith(("is_", "checkformat_")) and fi.parent is None and fi.cls is None and q == fi.qualname)
 
 
 def in_family(prog, exc, extra=()):
